@@ -15,6 +15,9 @@ RUN_PROFILES = {
     "parloop": dict(w={"parloop": 4, "parallel": 2, "service": 4, "call": 2, "cond": 1}, imm=0.2, params=0.7),
     "parloop_all": dict(w={"parloop": 4, "parallel": 2, "service": 4, "call": 2, "cond": 1, "count": 2},
                         imm=0.0, params=0.5, parloop_shapes="all"),
+    # parallel loops at the end of called tasks, inside loops / conditions / parallel branches
+    "parloop_mix": dict(w={"parloop": 4, "call": 4, "count": 3, "while": 1, "cond": 2, "parallel": 2, "service": 3},
+                        imm=0.1, params=0.3, parloop_shapes="all", max_block=2, max_tasks=4),
     "junk": dict(junk=0.4, imm=0.1),
     "uuid": dict(test_ids=False, imm=0.2, w={"count": 3, "parallel": 2, "parloop": 1}),
     "params": dict(params=1.0, w={"count": 4, "parloop": 2, "call": 3, "service": 4}, imm=0.1),
@@ -37,7 +40,7 @@ PROPS = {
                 quick=240, thorough=6000, finding_profiles=["react_all", "parloop_all"]),
     "C02": dict(kind="run", proj="P_seq", mon="mon_true",
                 profiles=["blocks", "default", "imm", "loops", "react_loops"], quick=240, thorough=6000,
-                finding_profiles=["parloop_all"]),
+                finding_profiles=["parloop_all", "parloop_mix"]),
     "C03": dict(kind="run", proj="P_set", mon="mon_true",
                 profiles=["parallel", "parloop", "react"], quick=240, thorough=6000,
                 finding_profiles=["parloop_all"]),
@@ -45,9 +48,10 @@ PROPS = {
                 profiles=["cond", "default", "react_loops"], quick=240, thorough=6000,
                 finding_profiles=["parloop_all"]),
     "C05": dict(kind="run", proj="P_seq", mon="mon_true",
-                profiles=["loops", "react_loops"], quick=240, thorough=6000, finding_profiles=["parloop_all"]),
+                profiles=["loops", "react_loops"], quick=240, thorough=6000,
+                finding_profiles=["parloop_all", "parloop_mix"]),
     "C06": dict(kind="run", proj="P_set", mon="mon_true",
-                profiles=["parloop", "react_parloop"], quick=240, thorough=6000, finding_profiles=["parloop_all"]),
+                profiles=["parloop", "react_parloop"], quick=240, thorough=6000, finding_profiles=["parloop_all", "parloop_mix"]),
     "C07": dict(kind="run", proj="P_ids", mon="mon_C07",
                 profiles=["default", "imm", "parallel", "loops", "parloop", "react", "react_loops"], quick=240, thorough=6000,
                 finding_profiles=["react_all", "parloop_all"]),
